@@ -312,8 +312,10 @@ func (m *Manager) newStream(ctx context.Context, sid uint64, kind, rpc string) (
 	}
 
 	stream := drpcstream.NewWithOptions(ctx, sid, m.wr, opts)
+	drpcdebug.Event(m, "stream.new.offer", sid)
 	select {
 	case m.streams <- streamInfo{ctx: ctx, stream: stream}:
+		drpcdebug.Point("manager.newStream.handoff")
 		drpcdebug.Event(m, "stream.new.begin", sid)
 		m.sbuf.Set(stream)
 		drpcdebug.Event(m, "stream.new.end", sid)
@@ -321,6 +323,7 @@ func (m *Manager) newStream(ctx context.Context, sid uint64, kind, rpc string) (
 		return stream, nil
 
 	case <-m.sigs.term.Signal():
+		drpcdebug.Event(m, "stream.new.retract", sid)
 		return nil, m.sigs.term.Err()
 	}
 }
